@@ -43,13 +43,23 @@ Definition mk_op (s : str) : option str :=
   match skip_string [63; 61] s with Some r => Some r | None =>
   skip_string [61] s end end end end.
 
+(* one round of the loop over escaped hashes in parseVarnameOp: in the raw text a '#'
+   in the parameter of the variable name is still written as \# *)
+Definition escaped_hash_step : step := fun s =>
+  match skip_string [92; 35] s with
+  | Some s1 => s2 <- loop (bytes_or_expr Expr varparam_spec) s1 ;; Ok (Some s2)
+  | None => Ok None
+  end.
+
 (* parseVarnameOp(parser, initial): (varnameOp, spaceBeforeValue, rest) *)
 Definition parse_varname_op (initial : bool) (s : str) : res (str * str * str) :=
   if negb initial then
     let '(sp, r) := next_bytes is_hspace s in Ok ([], sp, r)
   else
     let mark := s in
-    '(_, s1) <- Varname s ;;
+    '(_, s0) <- Varname s ;;
+    (* for lexer.SkipString("\\#") { for lexer.NextBytesSet(VarparamBytes) != "" || Expr() != nil { } } *)
+    s1 <- loop escaped_hash_step s0 ;;
     let s2 := snd (next_bytes is_hspace s1) in
     match mk_op s2 with
     | None => Panic                                      (* assert(ok) *)
